@@ -2,8 +2,10 @@
    transformers in the generated builtin order -> hash -> name references -> sort -> strip).
    Statements only: every proof is `exact lemma` (lemmas in Res/PipelineProofs.v).
    These theorems extend the coverage of C02, C11, C19, C01 and C07 to whole builds. *)
-From KV Require Import Res.Pipeline Res.PipelineProofs.
+From KV Require Import Res.Pipeline Res.PipelineProofs Res.PipelineOrderProofs Res.PipelineFrameProofs.
+From KV Require Import Yaml.FieldSpecSpec Yaml.FieldSpecProofs.
 From KV Require Res.Labels Res.Hygiene.
+From Coq Require Import Sorting.Permutation.
 
 (* ---------- generated tables ---------- *)
 
@@ -95,3 +97,65 @@ Theorem PIPE_ids_unique_fifo_partial :
     distinct_node_ids outs.
 Proof. exact build_ids_unique_fifo_partial. Qed.
 Print Assumptions PIPE_ids_unique_fifo_partial.
+
+(* ---------- C02: the whole-build frame theorem ----------
+   [frame_fs]: every builtin field-spec table (prefix, suffix, labels incl. templates and selectors, annotations,
+   namespace, images, replicas, var references: Gen/FieldSpecs.v), the referrer paths of the merged name-reference
+   rule table (Gen/NameRefRules.v), metadata/labels, metadata/namespace, `subjects` (RoleBinding hack) and
+   metadata/annotations (final rewrite).  [untouched q]: the JSON location q leaves each of these paths at some key. *)
+
+(* obligations on the generated tables: all paths are made of plain segments; nothing can reach kind / apiVersion *)
+Theorem Gen_frame_paths_wellformed : forallb (fun fs => forallb seg_ok (fs_segments fs)) frame_fs = true.
+Proof. exact frame_fs_segments_ok. Qed.
+Print Assumptions Gen_frame_paths_wellformed.
+
+Theorem Gen_kind_untouched : untouched [JKey "kind"%string] /\ untouched [JKey "apiVersion"%string].
+Proof. exact (conj kind_untouched api_version_untouched). Qed.
+Print Assumptions Gen_kind_untouched.
+
+(* For every successful build of a tree whose documents have a `kind` and whose `labels` entries carry no custom
+   `fields`: the outputs are, up to the order chosen by the final sort, in one-to-one positional correspondence
+   with a source list [srcs] whose [Some] entries are EXACTLY the input documents in accumulation order (every
+   input document appears exactly once; the [None] entries are the generated ConfigMaps / Secrets), and every
+   untouched location of an output holds the very node the input held there (tags, styles and text included). *)
+Theorem PIPE_build_frame :
+  forall nonstr o t outs,
+    tree_ok t -> build nonstr o t = Ok outs ->
+    exists (srcs : list (option node)) (outs0 : list node),
+      Permutation outs outs0 /\ somes srcs = inputs t /\
+      Forall2 (fun s out => match s with
+                            | Some src => forall q, untouched q -> get_at q out = get_at q src
+                            | None => True
+                            end) srcs outs0.
+Proof. exact build_frame. Qed.
+Print Assumptions PIPE_build_frame.
+
+Theorem PIPE_identity_count :
+  forall nonstr o t outs,
+    tree_ok t -> build nonstr o t = Ok outs ->
+    exists srcs : list (option node), List.length outs = List.length srcs /\ somes srcs = inputs t.
+Proof. exact build_frame_count. Qed.
+Print Assumptions PIPE_identity_count.
+
+(* ---------- C01: the name-reference pass is independent of Go's map iteration order ----------
+   [nameref_in_order rules order m] visits the referrers in the given order of positions, each visit reading the
+   current map and replacing only the visited referrer; [nameref_transform] (the function [build] uses) is the
+   list-order instance.  For the generated rule table, every order that visits each position exactly once gives,
+   on success, the same map - and succeeds iff the list order does. *)
+Theorem PIPE_nameref_order_independent :
+  forall nonstr rules order m out,
+    effective_rules gen_gvk_order_first gen_gvk_order_last gen_nameref_raw = Ok rules ->
+    Permutation order (seq 0 (List.length m)) ->
+    nameref_in_order nonstr rules order m = Ok out ->
+    nameref_transform pipe_cs nonstr rules m = Ok out.
+Proof. exact nameref_order_independent. Qed.
+Print Assumptions PIPE_nameref_order_independent.
+
+Theorem PIPE_nameref_order_independent_conv :
+  forall nonstr rules order m out,
+    effective_rules gen_gvk_order_first gen_gvk_order_last gen_nameref_raw = Ok rules ->
+    Permutation order (seq 0 (List.length m)) ->
+    nameref_transform pipe_cs nonstr rules m = Ok out ->
+    nameref_in_order nonstr rules order m = Ok out.
+Proof. exact nameref_order_independent_conv. Qed.
+Print Assumptions PIPE_nameref_order_independent_conv.
